@@ -177,5 +177,37 @@ pub fn drive<F: Fn(&Case, &mut Out) + std::panic::RefUnwindSafe>(f: F) {
     w.flush().unwrap();
 }
 
+/// A loopback port for a Sōzu listener (or for an address nobody listens on) that no other driver process can be
+/// handed at the same time.  Sōzu binds its listeners with SO_REUSEPORT, so a port obtained by `bind(0)` and closed
+/// again can be bound a second time by the worker of a concurrently running check, and the kernel then spreads
+/// connections over both workers (seen once: requests answered 404 by a foreign worker).  Ports are therefore taken
+/// below the ephemeral range (no `bind(0)` of anybody lands there), from a per-process sequence, claimed by an
+/// exclusive lock on a file in the temp directory that is held until the process exits, and accepted only when a
+/// plain bind succeeds (it fails while any socket, SO_REUSEPORT or not, holds the port).
+pub fn claim_port() -> u16 {
+    use std::os::unix::io::AsRawFd;
+    use std::sync::atomic::{AtomicU32, Ordering};
+    static NEXT: AtomicU32 = AtomicU32::new(0);
+    let pid = std::process::id();
+    for _ in 0..4000 {
+        let k = NEXT.fetch_add(1, Ordering::SeqCst);
+        let port = 10100 + ((pid.wrapping_mul(131).wrapping_add(k.wrapping_mul(7))) % 19900) as u16;
+        let path = std::env::temp_dir().join(format!("sozu-verif-port-{port}.lock"));
+        let Ok(f) = std::fs::OpenOptions::new().create(true).write(true).open(&path) else { continue };
+        if unsafe { libc::flock(f.as_raw_fd(), libc::LOCK_EX | libc::LOCK_NB) } != 0 {
+            continue;
+        }
+        if let Ok(l) = std::net::TcpListener::bind(("127.0.0.1", port)) {
+            let udp_free = std::net::UdpSocket::bind(("127.0.0.1", port)).is_ok();
+            drop(l);
+            if udp_free {
+                std::mem::forget(f); // the lock lives as long as the process
+                return port;
+            }
+        }
+    }
+    std::net::TcpListener::bind("127.0.0.1:0").unwrap().local_addr().unwrap().port()
+}
+
 /// shared ConfigState driver of C05 / C06 / C07
 pub mod cfgstate;
